@@ -496,3 +496,21 @@ Example addrs_filter_order_matters :
   monitor_a_case [0; 2; 1; 1; 7; 0; 0; 0; 2; 2; 7; 1; 0; 0;  2; 1; 1; 0; 1; 2; 0;  0;  1; 1] = [ERR_PROPERTY; 0; 3] /\
   monitor_a_case [0; 2; 1; 1; 7; 0; 0; 0; 2; 2; 7; 1; 0; 0;  2; 1; 1; 0; 1; 2; 0;  1; 2;  1; 1] = [].
 Proof. vm_compute. repeat split. Qed.
+
+(* the DialPeer case monitor rejects (recorded from seeded defects of the implementation):
+   a call that returns an error while address 2 of its ranking is still being dialed (address 1
+   ended connected to another peer) - clause 11; and a second caller for whom address 1, whose
+   back-off expired before it called, is never attempted - clause 12 *)
+Example dialpeer_monitor_rejects_early_error :
+  monitor_d_case [4; 4; 2; 1; 2; 1; 1; 0; 0; 1; 2; 1; 0; 2; 0; 0; 2; 1; 2; 0; 2; 2; 2; 2; 1; 0; 1; 2; 10000000; 0; 0; 0; 2; 2; 2; 2; 1; 0; 1;
+                  3; 1; 0; 0; 1; 1; 1; 0; 2; 1; 2; 0; 0; 0; 0; 0; 0; 0; 2; 1000000000; 0; 0; 0; 0; 0; 0; 0; 0; 0; 0;
+                  2; 2000000000; 0; 0; 0; 0; 0; 0; 0; 0; 0; 0; 2; 1000000000; 0; 0; 0; 0; 0; 0; 0; 0; 0; 0] = [ERR_PROPERTY; 2; 11].
+Proof. vm_compute. reflexivity. Qed.
+
+Example dialpeer_monitor_rejects_unattempted_after_backoff_expiry :
+  monitor_d_case [4; 4; 2; 1; 2; 5; 1; 0; 0; 0; 0; 0; 0; 0; 0; 0; 0; 1; 1; 0; 0; 1; 2; 1; 0; 2; 0; 0; 1; 2; 0; 1; 1; 1; 1; 1; 0; 1;
+                  2; 10000000; 0; 0; 0; 1; 1; 1; 1; 1; 0; 1; 5; -1; 0; 0; 0; 1; 1; 1; 1; 1; 0; 1;
+                  1; 2; 0; 0; 1; 2; 1; 0; 2; 0; 0; 0; 0; 1; 1; 1; 1; 1; 0; 2; 2; 2000000000; 0; 0; 0; 1; 1; 1; 1; 1; 0; 2;
+                  2; 2000000000; 0; 0; 0; 1; 1; 1; 1; 1; 0; 2; 4; 1; 1; 1; 2; 0; 0; 1; 1; 1; 1; 1; 0; 1;
+                  4; 2; 1; 2; 2; 0; 1; 2; 0; 0; 0; 0; 0; 0; 0; 2; 1000000000; 0; 0; 0; 0; 0; 0; 0; 0; 0; 0] = [ERR_PROPERTY; 5; 12].
+Proof. vm_compute. reflexivity. Qed.
